@@ -5,7 +5,7 @@ from .readerlib import both_modes, dump_dict, canon
 
 ID = 'C07'
 TARGETS = ['theories/Properties/C07.vo']
-THEOREMS = []
+THEOREMS = core.theorems_of(ID)
 LEVEL = ('proved for the .slp reader model: every parser of the model extends (success on a prefix implies the same success on the whole input), the full file is '
          'consumed to its last byte, hence every proper prefix of a finished well-formed replay is an error, with and without skip_frames; the .slp model is '
          'tied to the code by exhaustive prefix runs. .slpp half: tar/Arrow-IPC truncation behaviour is library behaviour: the real reader is run on every '
